@@ -5,6 +5,7 @@ mod alloc;
 mod checks;
 mod env;
 mod gen;
+mod isolate;
 mod model;
 mod proc;
 mod report;
@@ -43,6 +44,16 @@ fn main() {
 			if !o.ok || d.as_ref().ok() != Some(&vec![v.dump()]) {
 				println!("{:?} -> ok={} out={} read={:?}", s, o.ok, util::show(&o.out), d);
 			}
+		}
+		return;
+	}
+	if args[1] == "worker" {
+		// worker <check> <tier> <part> <nparts> <start> <progress>
+		let n = |i: usize| args[i].parse::<usize>().expect("worker argument");
+		let r = std::panic::catch_unwind(|| checks::worker(&args[2], &args[3], n(4), n(5), n(6), &args[7]));
+		if r.is_err() {
+			eprintln!("MACHINERY: worker panicked outside a job: {}", run::take_panic().unwrap_or_default());
+			std::process::exit(3);
 		}
 		return;
 	}
